@@ -999,8 +999,16 @@ impl ValueSetT for ValueSetOauth2Session {
 
     fn as_ref_uuid_iter(&self) -> Option<Box<dyn Iterator<Item = Uuid> + '_>> {
         // This is what ties us as a type that can be refint checked. We need to
-        // bind to our resource servers, not our ids!
-        Some(Box::new(self.map.values().map(|m| &m.rs_uuid).copied()))
+        // bind to our resource servers, not our ids! Revoked sessions are only
+        // kept as markers for replication and no longer refer to their resource
+        // server, the same as `contains` treats them.
+        Some(Box::new(
+            self.map
+                .values()
+                .filter(|m| !matches!(m.state, SessionState::RevokedAt(_)))
+                .map(|m| &m.rs_uuid)
+                .copied(),
+        ))
     }
 
     fn repl_merge_valueset(&self, older: &ValueSet, trim_cid: &Cid) -> Option<ValueSet> {
